@@ -26,8 +26,7 @@ def expand_name(line: str, char_pos: int) -> str:
     # WORD will capture substrings in logical and strings
     regexs = [
         FRegex.LOGICAL,
-        FRegex.SQ_STRING,
-        FRegex.DQ_STRING,
+        FRegex.ANY_STRING,
         FRegex.WORD,
         FRegex.NUMBER,
     ]
